@@ -177,7 +177,10 @@ def sorted_tasks(res: list[str]) -> list[str]:
 
 
 def canon_all(r: str) -> str:
-    """get_resources() returns a mapping: the order of its items is nobody's promise."""
+    """get_resources() returns a mapping: the order of its items is nobody's promise. Neither is the class an invalid
+    argument is rejected with (the model says typeError / valueError as the code does today)."""
+    if r in ("typeError", "valueError"):
+        return "argError"
     if r.startswith("all [") and r.endswith("]"):
         body = r[5:-1]
         return "all [" + ", ".join(sorted(body.split(", "))) + "]" if body else r
